@@ -213,38 +213,42 @@ pub fn c03_bytes_len_head_up_to_65537() {
     kani::cover!(n == 24);
 }
 
-/// Sequences of encoder calls: the encoder is stateless, the output is the concatenation of
-/// the reference bytes of each call; when the call sequence is balanced (R3 accepts the
-/// reference bytes as one item ending at the end) the real output is that one item.
+/// Sequences of encoder calls: the encoder is stateless, so the output of ANY sequence of 4
+/// calls (the call kinds symbolic, one-byte arguments so that the cursor stays concrete) is the
+/// concatenation of the reference bytes of each call; hence when the call sequence is balanced
+/// (R3 accepts the reference bytes as exactly one item) the real output is that one item.
 #[kani::proof]
 #[kani::unwind(12)]
 pub fn c03_call_sequences_4() {
-    let mut e = Encoder::new(Cursor::new([0u8; CAP]));
-    let mut r = RefBuf::new();
+    let mut e = Encoder::new(Cursor::new([0u8; 8]));
+    let mut r = [0u8; 8];
     let mut i = 0;
     while i < 4 {
         let op: u8 = kani::any();
-        kani::assume(op < 8);
-        let a: u8 = kani::any();
-        let ok = match op {
-            0 => { kani::assume(a <= 2); r.head(4, a as u64); e.array(a as u64).is_ok() }
-            1 => { kani::assume(a <= 1); r.head(5, a as u64); e.map(a as u64).is_ok() }
-            2 => { r.byte(0x9f); e.begin_array().is_ok() }
-            3 => { r.byte(0xbf); e.begin_map().is_ok() }
-            4 => { r.byte(0xff); e.end().is_ok() }
-            5 => { r.head(0, a as u64); e.u8(a).is_ok() }
-            6 => { r.byte(0xf6); e.null().is_ok() }
-            _ => { r.head(6, a as u64); e.tag(Tag::new(a as u64)).is_ok() }
+        kani::assume(op < 10);
+        let (ok, b) = match op {
+            0 => (e.array(2).is_ok(), 0x82),
+            1 => (e.array(1).is_ok(), 0x81),
+            2 => (e.map(1).is_ok(), 0xa1),
+            3 => (e.begin_array().is_ok(), 0x9f),
+            4 => (e.begin_map().is_ok(), 0xbf),
+            5 => (e.end().is_ok(), 0xff),
+            6 => (e.u8(7).is_ok(), 0x07),
+            7 => (e.null().is_ok(), 0xf6),
+            8 => (e.array(0).is_ok(), 0x80),
+            _ => (e.tag(Tag::new(1)).is_ok(), 0xc1),
         };
         assert!(ok);
+        r[i] = b;
         i += 1;
     }
     let c = e.into_writer();
     let pos = c.position();
     let out = c.into_inner();
-    assert!(pos == r.n && eq_cap(&out, &r.b), "output is not the concatenation of the calls' encodings");
-    let wf_ref = wellformed::<4>(&r.b[..8], 0, 5);
-    let wf_out = wellformed::<4>(&out[..8], 0, 5);
+    assert!(pos == 4, "four one-byte calls did not write four bytes");
+    assert!(u64::from_le_bytes(out) == u64::from_le_bytes(r), "output is not the concatenation of the calls' encodings");
+    let wf_ref = wellformed::<4>(&r[..4], 0, 5);
+    let wf_out = wellformed::<4>(&out[..4], 0, 5);
     assert!(wf_ref == wf_out);
-    kani::cover!(matches!(wf_out, Wf::Ok { end, .. } if end == pos), "a balanced 4-call sequence exists");
+    kani::cover!(matches!(wf_out, Wf::Ok { end: 4, .. }), "a balanced 4-call sequence exists");
 }
